@@ -42,7 +42,8 @@ TABLE.update({
         "clear/update/|=/-=/^=/&=, module-list append/insert/extend/+=/del/"
         "slice and extended-slice assignment/pop/remove/clear/reverse, "
         "constructors with parent or children arguments and save+load, over a "
-        "pool of 2 IRs, 2 modules and one node of every other kind (thorough: "
+        "pool of 2 IRs, 2 modules and one node of every other kind and a second "
+        "pool with 2 sections, 2 intervals, a code and a data block (thorough: "
         "two wider pools), starting from detached nodes, a linked chain, a "
         "loaded file and two loads of one file; in every state every IR's "
         "get_by_uuid is compared, for every UUID of the pool and a foreign "
@@ -127,7 +128,9 @@ TABLE.update({
         "IR saves and loads back equal, and for two blocks every (offset, "
         "size) in {0,1,3,6}^2, interval addresses None/0/5 and probe points "
         "-1..10 the block's address, contents, contains_offset and "
-        "contains_address equal their definitions; all constructor argument "
+        "contains_address equal their definitions; a neighbouring interval "
+        "built from the same caller-owned bytearray and that bytearray itself "
+        "must never change; all constructor argument "
         "combinations (size x initialized_size x contents length) are checked "
         "for ValueError exactly when initialized_size > size.",
         "Trusted: the two-field model. Sizes above 5 bytes are outside the "
